@@ -1,4 +1,5 @@
 import DclabModel.Model.Summary
+import DclabModel.Model.SummaryView
 import DclabModel.DriveUtil
 /-! Line-protocol driver for the summary model (C20).
 
@@ -11,14 +12,30 @@ import DclabModel.DriveUtil
     stored                    → `<min> <max> <mean>` as stored (`-` = absent)
     report                    → `<min> <max> <mean> ## <true min> <true max> <true mean> ## <mean under the old rule> ## <n>`
     child <v> …  | cdata <v> … (data change) | mask <bits> | rejuv | query      hierarchy child of a parent with these values
+    cview <bits> <bits> …     after `child`/`cdata`: summaries of the member whose ancestors have these `filter.all`
+                              arrays (parent first, root last) = `SummaryView.childReport` (nested C04 views)
+    cids <bits> <bits> …      → root indices of that member's events (`Hier.idsOf`)
+    chain <bits> <bits> …     refresh of the youngest member: the chain of cached feature objects (parent-first
+                              masks as for `cview`), all arrays dropped
+    chainq <k>                → summaries reported by the member k levels above the youngest; its array and
+                              those of its ancestors stay loaded (`SummaryView.queryAt`)
+    cdeleg <bits>             → what a child that delegates to an ndarray parent's own min/max/mean would answer
+    pmap <i> <i> …            mapped basin on top of the current dataset (`new`/`write`/`strip`/`poke` lines):
+                              `BasinProxyFeature(feat_obj, basinmap)` → `ok <len>` | `index-error`
+    pquery                    → summaries computed from the mapped values ## shortcut "equal length = reordering"
+    pexport <bits>            the mapped feature exported with this filter (`export.hdf5`): becomes the current
+                              dataset (then `stored` / `report`)
+    pchild <bits>             → summaries of a hierarchy child of the mapped dataset (parent filter = bits)
   values: `nan`, `+inf`, `-inf`, `p/q`, `p`
 -/
-open DclabModel.Summary DclabModel.DriveUtil
+open DclabModel.Summary DclabModel.SummaryView DclabModel.DriveUtil
 
 structure D where
   fx : Option SDs := none     -- repaired rule
   od : Option SDs := none     -- rule before the repair of F21
   ch : Child := { parent := [], mask := [], arr := none, cache := none }
+  px : Option Proxy := none
+  chain : List Member := []
 
 def parseVal (s : String) : Option Val :=
   if s = "nan" then some .nan
@@ -86,6 +103,35 @@ def handle (d : D) (line : String) : D × String :=
     ({ d with ch := c }, match o with
       | some s => showSumm s
       | none => "none")
+  | "cview" :: bs => (d, showSumm (childReport d.ch.parent (bs.map parseBools)))
+  | "cids" :: bs =>
+    (d, " ".intercalate ((DclabModel.Hier.idsOf d.ch.parent.length (bs.map parseBools)).map toString))
+  | "chain" :: bs => ({ d with chain := chainRefresh (bs.map parseBools) }, "ok")
+  | ["chainq", k] => match k.toNat? with
+    | some k =>
+      let r := queryAt d.ch.parent k d.chain
+      ({ d with chain := r.1 }, showSumm (truth r.2))
+    | none => (d, "bad-op")
+  | ["cdeleg", bits] => (d, showSumm (childOfRootDelegating (.nd d.ch.parent) (parseBools bits)))
+  | "pmap" :: is => match d.fx, is.mapM String.toNat? with
+    | some s, some m =>
+      if mapOk s.data.length m then
+        ({ d with px := some { origin := s, map := m, cache := none } }, s!"ok {m.length}")
+      else ({ d with px := none }, "index-error")
+    | _, _ => (d, "bad-op")
+  | ["pquery"] => match d.px with
+    | some p => ({ d with px := some (proxyArray p).1 },
+                 showSumm (proxyReport p) ++ " ## " ++ showSumm (proxyReportShortcut p))
+    | none => (d, "none")
+  | ["pexport", bits] => match d.px with
+    | some p =>
+      let (p', a) := proxyArray p
+      let d' := (both d (fun r _ => storeFeature r false none (sel (parseBools bits) a))).1
+      ({ d' with px := some p' }, "ok")
+    | none => (d, "none")
+  | ["pchild", bits] => match d.px with
+    | some p => ({ d with px := some (proxyArray p).1 }, showSumm (proxyChildReport p (parseBools bits)))
+    | none => (d, "none")
   | _ => (d, "bad-op")
 
 def main : IO Unit := mainLoop ({} : D) handle
